@@ -26,7 +26,7 @@ type vWorld struct {
 	dense int // anonymous live rows (dense pre-state), not tracked individually
 	// pending effects of the running transaction
 	pn    int
-	pOp   [8]int // 0 put a, 1 merge a, 2 put b, 3 delete, 4 insert
+	pOp   [8]int // 0 put a, 1 merge a, 2 put b, 3 delete, 4 insert with a, 5 insert with b only
 	pRow  [8]int
 	pNum  [8]uint64
 	pStr  [8]string
@@ -112,24 +112,35 @@ func (w *vWorld) pend(op, row int, num uint64, str string) {
 	w.pn++
 }
 
-// opMenu: bit 0 put a, bit 1 merge a, bit 2 put b, bit 3 delete, bit 4 insert
+// opMenu: bit 0 put a, bit 1 merge a, bit 2 put b, bit 3 delete, bit 4 insert (storing a),
+// bit 5 insert storing only the witness column b
 func (w *vWorld) oneOp(txn *Txn, menu int, maxLen int) {
-	var ops [5]int
+	var ops [6]int
 	n := 0
-	for o := 0; o < 5; o++ {
+	for o := 0; o < 6; o++ {
 		if menu&(1<<o) != 0 && (o != 1 || vCanMerge(w.kind)) {
 			ops[n] = o
 			n++
 		}
 	}
 	op := ops[vndChoice("op", n)]
-	if op == 4 {
+	if op == 4 || op == 5 {
 		if w.n >= vMaxRows {
 			return
 		}
-		num, str := vInput(w.kind, maxLen)
+		var num uint64
+		var str string
+		if op == 4 {
+			num, str = vInput(w.kind, maxLen)
+		} else {
+			num = vndU64("bval")
+		}
 		off, err := txn.Insert(func(r Row) error {
-			vSet(r, w.kind, "a", num, str)
+			if op == 4 {
+				vSet(r, w.kind, "a", num, str)
+			} else {
+				r.SetInt64("b", int64(num))
+			}
 			return nil
 		})
 		vndAssert(err == nil, "insert failed")
@@ -143,7 +154,7 @@ func (w *vWorld) oneOp(txn *Txn, menu int, maxLen int) {
 		vndAssert(!w.fresh[s], "insert returned an offset already handed out in this transaction")
 		w.fresh[s] = true
 		w.gone[s] = false
-		w.pend(4, s, num, str)
+		w.pend(op, s, num, str)
 		return
 	}
 	s := w.pickLive()
@@ -208,6 +219,13 @@ func (w *vWorld) commitModel() {
 			w.live[s] = true
 			w.a[s] = vModelSet(w.kind, w.pNum[i], w.pStr[i])
 			w.b[s] = vCell{}
+		case 5:
+			if !w.live[s] {
+				w.count++
+			}
+			w.live[s] = true
+			w.a[s] = vCell{}
+			w.b[s] = vCell{has: true, num: w.pNum[i]}
 		}
 	}
 	w.clearPending()
